@@ -15,6 +15,7 @@ import (
 	"math"
 	"math/big"
 	"os"
+	"sort"
 	"strings"
 
 	smath "go.starlark.net/lib/math"
@@ -65,6 +66,17 @@ func encValue(v starlark.Value) string {
 		return "[" + strings.Join(parts, ",") + "]"
 	case starlark.NoneType:
 		return "None"
+	case starlark.Bytes:
+		return fmt.Sprintf("y:%x", string(v))
+	case *starlark.Set:
+		parts := []string{}
+		it := v.Iterate()
+		defer it.Done()
+		var e starlark.Value
+		for it.Next(&e) {
+			parts = append(parts, encValue(e))
+		}
+		return "[" + strings.Join(parts, ",") + "]"
 	}
 	return "other:" + v.Type()
 }
@@ -158,6 +170,293 @@ func emit(kind, t string, w string, errOK bool, args ...operand) string {
 func smallLen(r string) bool {
 	z, ok := new(big.Int).SetString(r, 10)
 	return ok && z.Sign() >= 0 && z.Cmp(big.NewInt(1000)) <= 0
+}
+
+// ---------------------------------------------------------------- source literals and the built-in universe
+
+// evalSrc evaluates source text through the real scanner / parser / compiler.
+func evalSrc(src string) (res string) {
+	defer func() {
+		if e := recover(); e != nil {
+			res = "panic:" + fmt.Sprint(e)
+		}
+	}()
+	v, err := starlark.EvalOptions(&syntax.FileOptions{}, thread, "lit.star", src, starlark.StringDict{})
+	if err != nil {
+		return "err"
+	}
+	return encValue(v)
+}
+
+func emitSrc(kind, class, src, w string) {
+	if trace {
+		hx.Emit(Case{K: "pre", Op: class, A: []string{"s:" + src}, R: kind})
+		hx.Flush()
+	}
+	counts[kind]++
+	hx.Emit(Case{K: kind, Op: class, A: []string{"s:" + src}, R: evalSrc(src), W: w})
+}
+
+// literalCases: the int literal of |x| in every radix spelling, through the scanner,
+// also negated and printed back; cross-checked with int(text, 0).
+func literalCases(x *big.Int) {
+	a := new(big.Int).Abs(x)
+	for _, f := range []struct {
+		pre  string
+		base int
+	}{{"", 10}, {"0x", 16}, {"0X", 16}, {"0o", 8}, {"0O", 8}, {"0b", 2}, {"0B", 2}} {
+		digits := a.Text(f.base)
+		if f.pre == "0X" {
+			digits = strings.ToUpper(digits)
+		}
+		lit := f.pre + digits
+		class := "literal " + map[string]string{"": "decimal"}[f.pre] + f.pre
+		emitSrc("lit", class, lit, a.String())
+		emitSrc("lit", class+" negated", "-"+lit, neg(a).String())
+		emitSrc("lit", class+" printed %d", "'%d' % "+lit, "s:"+a.Text(10))
+		emitSrc("lit", class+" printed %x", "'%x' % -"+lit, "s:"+neg(a).Text(16))
+		emitSrc("lit", class+" printed %o", "'%o' % "+lit, "s:"+a.Text(8))
+		emitSrc("lit", class+" via int(text, 0)", "int('"+lit+"', 0) == "+lit, "T")
+		emitSrc("lit", class+" arithmetic", lit+" + 1 - "+a.Text(10), "1")
+	}
+}
+
+func callB(fn starlark.Value, args ...starlark.Value) (res string, ok bool) {
+	defer func() {
+		if e := recover(); e != nil {
+			res, ok = "panic:"+fmt.Sprint(e), true
+		}
+	}()
+	v, err := starlark.Call(thread, fn, starlark.Tuple(args), nil)
+	if err != nil {
+		return "err", false
+	}
+	return encValue(v), true
+}
+
+func emitB(kind, op, w string, errOK bool, fn starlark.Value, args ...operand) {
+	a := make([]string, len(args))
+	vs := make([]starlark.Value, len(args))
+	for i := range args {
+		a[i], vs[i] = args[i].s, args[i].v
+	}
+	if trace {
+		hx.Emit(Case{K: "pre", Op: op, A: a, R: kind})
+		hx.Flush()
+	}
+	r, _ := callB(fn, vs...)
+	counts[kind]++
+	hx.Emit(Case{K: kind, Op: op, A: a, R: r, W: w, E: errOK})
+}
+
+func mkList(xs ...*big.Int) operand {
+	vals := make([]starlark.Value, len(xs))
+	parts := make([]string, len(xs))
+	for i, x := range xs {
+		vals[i] = starlark.MakeBigInt(x)
+		parts[i] = x.String()
+	}
+	return operand{starlark.NewList(vals), "[" + strings.Join(parts, ",") + "]"}
+}
+
+func encInts(xs ...*big.Int) string {
+	parts := make([]string, len(xs))
+	for i, x := range xs {
+		parts[i] = x.String()
+	}
+	return "[" + strings.Join(parts, ",") + "]"
+}
+
+// nearestOrInf is x.Float() as the math module sees it: the nearest float, an infinity when too large.
+func nearestOrInf(x *big.Int) float64 {
+	f, ok := intToFloat(x)
+	if !ok {
+		return math.Inf(x.Sign())
+	}
+	return f
+}
+
+// oracles of the universe built-ins on ints: name -> function of one int (nil result = no opinion)
+var uniUnary = map[string]func(x *big.Int) (w string, errOK bool){
+	"abs":  func(x *big.Int) (string, bool) { return new(big.Int).Abs(x).String(), false },
+	"bool": func(x *big.Int) (string, bool) { return boolS(x.Sign() != 0), false },
+	"int":  func(x *big.Int) (string, bool) { return x.String(), false },
+	"float": func(x *big.Int) (string, bool) {
+		if f, ok := intToFloat(x); ok {
+			return encFloat(f), false
+		}
+		return "err", false
+	},
+	"str":  func(x *big.Int) (string, bool) { return "s:" + x.Text(10), false },
+	"repr": func(x *big.Int) (string, bool) { return "s:" + x.Text(10), false },
+	"type": func(x *big.Int) (string, bool) { return "s:int", false },
+	"dir":  func(x *big.Int) (string, bool) { return "[]", false }, // ints have no methods
+	"min":  nil, "max": nil,                                        // binary and list forms below
+	"chr": func(x *big.Int) (string, bool) {
+		if x.Sign() < 0 || x.Cmp(big.NewInt(0x10FFFF)) > 0 {
+			return "err", false
+		}
+		return "s:" + string(rune(x.Int64())), false
+	},
+}
+
+// list forms f([x, y])
+var uniList = map[string]func(x, y *big.Int) string{
+	"list":  func(x, y *big.Int) string { return encInts(x, y) },
+	"tuple": func(x, y *big.Int) string { return encInts(x, y) },
+	"set": func(x, y *big.Int) string {
+		if x.Cmp(y) == 0 {
+			return encInts(x)
+		}
+		return encInts(x, y)
+	},
+	"sorted": func(x, y *big.Int) string {
+		if x.Cmp(y) <= 0 {
+			return encInts(x, y)
+		}
+		return encInts(y, x)
+	},
+	"reversed": func(x, y *big.Int) string { return encInts(y, x) },
+	"zip":      func(x, y *big.Int) string { return "[" + encInts(x) + "," + encInts(y) + "]" },
+	"len":      func(x, y *big.Int) string { return "2" },
+	"any":      func(x, y *big.Int) string { return boolS(x.Sign() != 0 || y.Sign() != 0) },
+	"all":      func(x, y *big.Int) string { return boolS(x.Sign() != 0 && y.Sign() != 0) },
+	"min": func(x, y *big.Int) string {
+		if y.Cmp(x) < 0 {
+			return y.String()
+		}
+		return x.String()
+	},
+	"max": func(x, y *big.Int) string {
+		if y.Cmp(x) > 0 {
+			return y.String()
+		}
+		return x.String()
+	},
+	"enumerate": func(x, y *big.Int) string { return "[[0," + x.String() + "],[1," + y.String() + "]]" },
+	"bytes": func(x, y *big.Int) string {
+		if x.Sign() < 0 || y.Sign() < 0 || x.Cmp(big.NewInt(255)) > 0 || y.Cmp(big.NewInt(255)) > 0 {
+			return "err"
+		}
+		return fmt.Sprintf("y:%02x%02x", x.Int64(), y.Int64())
+	},
+	"str":  func(x, y *big.Int) string { return "s:[" + x.String() + ", " + y.String() + "]" },
+	"repr": func(x, y *big.Int) string { return "s:[" + x.String() + ", " + y.String() + "]" },
+	"bool": func(x, y *big.Int) string { return "T" },
+	"type": func(x, y *big.Int) string { return "s:list" },
+}
+
+// built-ins that must not be called blindly (output, abort) or that take no numbers at all by design
+var uniSkip = map[string]bool{"print": true, "fail": true}
+
+var mathUnary = map[string]func(float64) float64{
+	"fabs": math.Abs, "exp": math.Exp, "sqrt": math.Sqrt, "acos": math.Acos, "asin": math.Asin, "atan": math.Atan,
+	"cos": math.Cos, "sin": math.Sin, "tan": math.Tan, "acosh": math.Acosh, "asinh": math.Asinh, "atanh": math.Atanh,
+	"cosh": math.Cosh, "sinh": math.Sinh, "tanh": math.Tanh, "gamma": math.Gamma,
+	"degrees": func(x float64) float64 { return 360 * x / (2 * math.Pi) },
+	"radians": func(x float64) float64 { return 2 * math.Pi * x / 360 },
+	"log":     func(x float64) float64 { return math.Log(x) / math.Log(math.E) },
+}
+var mathBinary = map[string]func(a, b float64) float64{
+	"copysign": math.Copysign, "mod": math.Mod, "pow": math.Pow, "remainder": math.Remainder, "atan2": math.Atan2, "hypot": math.Hypot,
+}
+
+// exact ones handled by conversions(): floor, ceil, round
+var mathExact = map[string]bool{"floor": true, "ceil": true, "round": true}
+
+func isCallable(v starlark.Value) bool { _, ok := v.(starlark.Callable); return ok }
+
+// universeCases enumerates the members of starlark.Universe and lib/math.Module and
+// runs every one that accepts ints on the boundary pool; a member that accepts ints
+// but has no oracle here is reported as "uncovered".
+func universeCases(ints []*big.Int, partners []*big.Int) {
+	three, two := mkInt(big.NewInt(3)), mkInt(big.NewInt(2))
+	for _, name := range sortedKeys(starlark.Universe) {
+		fn := starlark.Universe[name]
+		if !isCallable(fn) || uniSkip[name] {
+			continue
+		}
+		_, ok1 := callB(fn, three.v)
+		_, ok2 := callB(fn, three.v, two.v)
+		_, okL := callB(fn, mkList(big.NewInt(3), big.NewInt(2)).v)
+		u, hasU := uniUnary[name]
+		l, hasL := uniList[name]
+		if name == "range" || name == "enumerate" && !okL {
+			hasU = true // covered by the range / enumerate groups
+		}
+		if (ok1 || ok2 || okL) && !hasU && !hasL {
+			counts["uncovered"]++
+			hx.Emit(Case{K: "uncovered", Op: "universe." + name, A: []string{}, R: "accepts ints", W: "?"})
+			continue
+		}
+		for _, x := range ints {
+			if ok1 && u != nil {
+				w, e := u(x)
+				emitB("builtin", name+"(a0)", w, e, fn, mkInt(x))
+			}
+			for _, y := range partners {
+				if ok2 && (name == "min" || name == "max") {
+					emitB("builtin", name+"(a0, a1)", uniList[name](x, y), false, fn, mkInt(x), mkInt(y))
+				}
+				if okL && hasL {
+					w := l(x, y)
+					emitB("builtin", name+"([a0, a1])", w, false, fn, mkList(x, y))
+				}
+			}
+		}
+	}
+	for _, name := range sortedKeys(smath.Module.Members) {
+		fn := smath.Module.Members[name]
+		if !isCallable(fn) || mathExact[name] {
+			continue
+		}
+		u, hasU := mathUnary[name]
+		b, hasB := mathBinary[name]
+		_, ok1 := callB(fn, three.v)
+		_, ok2 := callB(fn, three.v, two.v)
+		if (ok1 || ok2) && !hasU && !hasB {
+			counts["uncovered"]++
+			hx.Emit(Case{K: "uncovered", Op: "math." + name, A: []string{}, R: "accepts ints", W: "?"})
+			continue
+		}
+		for _, x := range ints {
+			xf := nearestOrInf(x)
+			if hasU {
+				emitB("mathfn", "math."+name+"(a0)", encFloat(u(xf)), false, fn, mkInt(x))
+			}
+			if name == "log" {
+				for _, y := range partners {
+					yf := nearestOrInf(y)
+					w := "err"
+					if yf != 1 {
+						w = encFloat(math.Log(xf) / math.Log(yf))
+					}
+					emitB("mathfn", "math.log(a0, a1)", w, false, fn, mkInt(x), mkInt(y))
+				}
+			}
+			if hasB {
+				for _, y := range partners {
+					yf := nearestOrInf(y)
+					emitB("mathfn", "math."+name+"(a0, a1)", encFloat(b(xf, yf)), false, fn, mkInt(x), mkInt(y))
+					emitB("mathfn", "math."+name+"(a0, a1)", encFloat(b(yf, xf)), false, fn, mkInt(y), mkInt(x))
+				}
+			}
+		}
+	}
+	// ints and floats have no methods; if one appears it needs an oracle
+	for _, v := range []operand{three, mkFloat(1.5)} {
+		r, _ := callB(starlark.Universe["dir"], v.v)
+		if r != "[]" {
+			counts["uncovered"]++
+			hx.Emit(Case{K: "uncovered", Op: "methods of " + v.v.Type(), A: []string{}, R: r, W: "?"})
+		}
+	}
+}
+
+func sortedKeys(d starlark.StringDict) []string {
+	ks := d.Keys()
+	sort.Strings(ks)
+	return ks
 }
 
 // ---------------------------------------------------------------- oracles (math/big only)
@@ -1144,6 +1443,24 @@ func main() {
 		for _, y := range []*big.Int{big.NewInt(3), big.NewInt(-7), pow2(64), big.NewInt(0), add(pow2(53), 1)} {
 			intTrueDiv(x, y)
 			intTrueDiv(y, x)
+		}
+	}
+
+	// 1b. every numeric built-in of the universe and the math module on the boundary pool
+	partners := []*big.Int{big.NewInt(0), big.NewInt(-1), big.NewInt(2), neg(pow2(31)), add(pow2(31), -1), pow2(53), neg(pow2(63)), add(pow2(63), -1), pow2(64), neg(add(pow2(64), 1))}
+	universeCases(ints, partners)
+
+	// 1c. int literals of every radix through the scanner
+	litPool := append([]*big.Int{}, ints...)
+	for _, e := range []uint{62, 63, 64, 65, 100, 128, 200} {
+		litPool = append(litPool, pow2(e), add(pow2(e), -1), add(pow2(e), 1))
+	}
+	for i := 0; i < *nrand/8; i++ {
+		litPool = append(litPool, randInt(rd.Split(), 200))
+	}
+	for _, x := range litPool {
+		if x.Sign() >= 0 {
+			literalCases(x)
 		}
 	}
 
